@@ -50,6 +50,7 @@ ASSUMPTIONS = [
     'a fresh tile that shares a meta tile with a stale requested tile may legitimately be re-fetched (meta-tile granularity); its served content is not judged',
     'when a seed-task threshold and a cache-level refresh_before are both set: must-refresh is judged by the seed rule, must-keep only when both rules keep',
     'an on_error image with cache: False is the failure response; on_error cache: True (configured overwrite) is not generated',
+    'returned-where-configured clause: authorize_stale (doc/sources.rst) and the SourceError fallback are judged on the single-tile path only, where MapProxy implements them; on meta/bulk paths only the stored state is judged (ignored authorize_stale is counted in notes)',
 ]
 
 BASE = 1.0e9                      # 2001-09-09T01:46:40Z, far from the real clock on purpose
@@ -106,6 +107,14 @@ def _install_patches(clock):
         for mod, name, val in saved:
             setattr(mod, name, val)
     return undo
+
+
+def _scratch_root():
+    """tmpfs when available (the histories create and delete thousands of tiny files), else the default temp dir"""
+    d = '/dev/shm'
+    if os.path.isdir(d) and os.access(d, os.W_OK | os.X_OK):
+        return d
+    return None
 
 
 def _iso(value):
@@ -225,7 +234,7 @@ class Engine(object):
         from mapproxy.config.loader import ProxyConfiguration
         from mapproxy.source.error import HTTPSourceErrorHandler
         cfg = self.cfg
-        self.tmp = tempfile.mkdtemp(prefix='c13-')
+        self.tmp = tempfile.mkdtemp(prefix='c13-', dir=_scratch_root())
         tmp = self.tmp
         self.mtime_file = os.path.join(tmp, 'reseed.time')
         self._touch(START - 86400.0)
@@ -420,14 +429,14 @@ class Engine(object):
                  86400.0 * d.get('days', 0) + 604800.0 * d.get('weeks', 0))
         return now - total
 
-    def state_of(self, coord, now):
+    def state_of(self, coord, now, serve_only=False):
         """('missing'|'none'|'must'|'keep'|'band'); 'none' = stored and no rule in force (never expires)"""
         m = self.model.get(coord)
         if m is None:
             return 'missing'
         ts = m['ts']
         serve = classify(ts, self.rule_T(self.serve_rule, now)) if self.serve_rule is not None else None
-        if self.seed_rule is not None:
+        if self.seed_rule is not None and not serve_only:
             seed = classify(ts, self.seed_rule['T'])
             if serve is None or seed == 'must':
                 return seed
@@ -523,7 +532,7 @@ class Engine(object):
             return 'minimize'
         return 'meta'
 
-    def predict(self, name, coords, U, fail):
+    def predict(self, name, coords, U, fail, now0, lenient=False):
         """What a correct implementation does when exactly the tiles in U (subset of coords) need the upstream.
 
         Returns dict: calls (Counter of bboxes), flex (Counter or None: under an aborting failure any non-empty
@@ -531,7 +540,7 @@ class Engine(object):
         """
         mgr = self.mgrs[name]
         lat = self.cfg['latency']
-        t = self.clock.now
+        t = now0
         calls = collections.Counter()
         stored = []
         served = {}
@@ -552,7 +561,7 @@ class Engine(object):
                 elif fail == 'raise':
                     if c in self.model:
                         served[c] = 'old'
-                    else:
+                    elif not lenient:
                         exc = True
                         break
                 elif fail == 'errimg-stale' and c in self.model:
@@ -576,6 +585,10 @@ class Engine(object):
                 else:
                     group_calls = collections.Counter([tuple(mt.bbox)])
                 if fail == 'raise':
+                    if lenient:
+                        # an implementation that answers without the failed (meta) tile instead of raising
+                        calls.update(group_calls)
+                        continue
                     exc = True
                     if path == 'bulk':
                         flex = group_calls
@@ -668,66 +681,24 @@ class Engine(object):
             self.describe_rules(now0), now0,
             ', '.join('%r:%s%s' % (c, states[c], ('@%.3f' % self.model[c]['ts']) if c in self.model else '') for c in coords))
 
-        # the walker's pre-check is a decision of its own
         if pre:
             self.classes.add('precheck:' + pre)
-            s0 = states[coords[0]]
-            want = {'missing': pre == 'is_cached', 'must': True, 'keep': False, 'none': False, 'band': None}[s0]
-            if want is not None and go != want:
-                clause = 'stale-not-refreshed' if want else 'fresh-refetched'
-                return core.Violation(self.sig(clause, 'precheck-' + pre),
-                                      '%s(%r) -> the seed walker %s the tile; %s' % (pre, coords[0], 'processes' if go else 'skips', desc), None)
-            if not go:
-                if actual:
-                    return core.Violation(self.sig('fresh-refetched', 'precheck-' + pre), 'pre-check alone called the upstream; ' + desc, None)
-                return self.scan({}, fail, 'precheck-' + pre, desc)
-
-        base = set(c for c in coords if states[c] in ('missing', 'must'))
-        band = [c for c in coords if states[c] == 'band']
-        if pre and go and states[coords[0]] == 'band':
-            # the pre-check said "needs work"; the load may still decide either way
-            pass
-        if len(band) > 6:
+        kind, match = self.judge(name, coords, states, pre, go, fail, now0, actual, exc, desc)
+        if kind == 'violation' and self.seed_rule is not None and self.serve_rule is not None:
+            # does the behaviour follow the cache-level rule alone (seed-task threshold ignored)?
+            alt = dict((c, self.state_of(c, now0, serve_only=True)) for c in coords)
+            if self.judge(name, coords, alt, pre, go, fail, now0, actual, exc, desc)[0] != 'violation':
+                match.signature = SIG_SEED_VS_CACHE_RULE
+                match.message = ('the seed task\'s refresh threshold is ignored because the cache has a refresh_before option '
+                                 '(TileManager.expire_timestamp prefers _refresh_before): ' + match.message)
+        if kind == 'violation':
+            return match
+        if kind == 'inconclusive':
             self.notes['inconclusive:more-than-6-band-tiles'] += 1
             self.dead = True
             return None
-        preds = []
-        for k in range(len(band) + 1):
-            for sub in itertools.combinations(band, k):
-                preds.append(self.predict(name, coords, base | set(sub), fail))
-        match = None
-        for p in preds:
-            if self._matches(p, actual) and bool(p['exc']) == (exc is not None):
-                match = p
-                break
-        path = preds[0]['path'] if len(set(p['path'] for p in preds)) == 1 else 'meta'
-        if match is None:
-            calls_ok = [p for p in preds if self._matches(p, actual)]
-            if calls_ok:
-                p = calls_ok[0]
-                if exc is not None:
-                    return core.Violation(self.sig('request-failed-although-servable', p['path']) + '/' + str(fail),
-                                          'request raised %r; %s' % (exc, desc), None)
-                return core.Violation(self.sig('failed-request-returned-normally', p['path']) + '/' + str(fail),
-                                      'upstream failed for a tile that is not in the cache but the request returned normally; ' + desc, None)
-            required = None
-            allowed = collections.Counter()
-            for p in preds:
-                cs_ = p['calls']
-                required = cs_ if required is None else (required & cs_)
-                allowed = allowed | cs_ | (p['flex'] or collections.Counter())
-            missing = required - actual
-            extra = actual - allowed
-            how = 'upstream calls %s, expected %s%s' % (
-                self._fmt_calls(actual), self._fmt_calls(required),
-                (' (optionally up to %s)' % self._fmt_calls(allowed)) if allowed != required else '')
-            if missing and not any(p['flex'] for p in preds):
-                return core.Violation(self.sig('stale-not-refreshed', path), how + '; ' + desc, None)
-            if extra:
-                if set(extra) <= set(allowed):
-                    return core.Violation(self.sig('duplicate-upstream-request', path), how + '; ' + desc, None)
-                return core.Violation(self.sig('fresh-refetched', path), how + '; ' + desc, None)
-            return core.Violation(self.sig('inconsistent-upstream-requests', path), how + '; ' + desc, None)
+        if kind == 'skipped':
+            return self.scan({}, fail, 'precheck-' + pre, desc)
         path = match['path']
         self.classes.add('path:' + path)
         if fail:
@@ -771,6 +742,69 @@ class Engine(object):
         for c, ts, ver in match['stored']:
             written[c] = (ts, ver)
         return self.scan(written, fail, path, desc)
+
+    def judge(self, name, coords, states, pre, go, fail, now0, actual, exc, desc):
+        """-> ('ok', prediction) | ('skipped', None) | ('inconclusive', None) | ('violation', Violation)"""
+        # the walker's pre-check is a decision of its own
+        if pre:
+            s0 = states[coords[0]]
+            want = {'missing': pre == 'is_cached', 'must': True, 'keep': False, 'none': False, 'band': None}[s0]
+            if want is not None and go != want:
+                clause = 'stale-not-refreshed' if want else 'fresh-refetched'
+                return 'violation', core.Violation(
+                    self.sig(clause, 'precheck-' + pre),
+                    '%s(%r) -> the seed walker %s the tile; %s' % (pre, coords[0], 'processes' if go else 'skips', desc), None)
+            if not go:
+                if actual:
+                    return 'violation', core.Violation(self.sig('fresh-refetched', 'precheck-' + pre),
+                                                       'pre-check alone called the upstream; ' + desc, None)
+                return 'skipped', None
+        base = set(c for c in coords if states[c] in ('missing', 'must'))
+        band = [c for c in coords if states[c] == 'band']
+        if len(band) > 6:
+            return 'inconclusive', None
+        preds = []
+        for k in range(len(band) + 1):
+            for sub in itertools.combinations(band, k):
+                preds.append(self.predict(name, coords, base | set(sub), fail, now0))
+                if fail == 'raise':
+                    preds.append(self.predict(name, coords, base | set(sub), fail, now0, lenient=True))
+        calls_ok = [p for p in preds if self._matches(p, actual)]
+        for p in calls_ok:
+            if bool(p['exc']) == (exc is not None):
+                return 'ok', p
+        path = preds[0]['path'] if len(set(p['path'] for p in preds)) == 1 else 'meta'
+        if calls_ok:
+            p = calls_ok[0]
+            if exc is None:
+                # the upstream failed for a tile that is not in the cache and the request still returned something:
+                # nothing in the property forbids that
+                self.notes['failed-request-for-missing-tile-returned-normally'] += 1
+                q = dict(p)
+                q['exc'] = False
+                return 'ok', q
+            # every tile the upstream was asked for is still in the cache (or the upstream is healthy), yet the request failed:
+            # single-tile path serves the stale tile on SourceError (anchored mechanism "stale fallback on upstream error")
+            return 'violation', core.Violation(self.sig('request-failed-although-stale-tile-available', p['path']) + '/' + str(fail),
+                                               'request raised %r; %s' % (exc, desc), None)
+        required = None
+        allowed = collections.Counter()
+        for p in preds:
+            cs_ = p['calls']
+            required = cs_ if required is None else (required & cs_)
+            allowed = allowed | cs_ | (p['flex'] or collections.Counter())
+        missing = required - actual
+        extra = actual - allowed
+        how = 'upstream calls %s, expected %s%s' % (
+            self._fmt_calls(actual), self._fmt_calls(required),
+            (' (optionally up to %s)' % self._fmt_calls(allowed)) if allowed != required else '')
+        if missing and not any(p['flex'] for p in preds):
+            clause = 'stale-not-refreshed'
+        elif extra:
+            clause = 'duplicate-upstream-request' if set(extra) <= set(allowed) else 'fresh-refetched'
+        else:
+            clause = 'inconsistent-upstream-requests'
+        return 'violation', core.Violation(self.sig(clause, path), how + '; ' + desc, None)
 
     def log_coords(self, name):
         """coords whose own (single-tile) bbox was requested in this step"""
@@ -899,6 +933,7 @@ class ExpiryMachine(RuleBasedStateMachine):
     def __init__(self):
         RuleBasedStateMachine.__init__(self)
         self.eng = None
+        self.last = None
 
     @initialize(cfg=configs())
     def setup(self, cfg):
@@ -909,7 +944,16 @@ class ExpiryMachine(RuleBasedStateMachine):
         if eng is None or eng.dead:
             return
         if SIG_SEED_VS_CACHE_RULE in self._open and eng.both_rules_after(op):
+            # open finding: never have both rules in force - drop the other rule first, so that the search goes on
+            # behind the finding (seed-task thresholds alone and cache-level rules alone are still explored)
             self._stats.excluded['seed-task threshold together with cache-level refresh_before (open finding)'] += 1
+            other = 'seed_rule' if op['op'] == 'serve_rule' else 'serve_rule'
+            self._apply({'op': other, 'rule': None})
+        self._apply(op)
+
+    def _apply(self, op):
+        eng = self.eng
+        if eng.dead:
             return
         v = eng.apply(op)
         if v is not None and v.signature not in self._ignored_signatures:
@@ -928,17 +972,21 @@ class ExpiryMachine(RuleBasedStateMachine):
     def bump_version(self):
         self._do({'op': 'version'})
 
-    @rule(mode=st.sampled_from([None, None, 'raise', 'errimg', 'errimg-stale']))
+    @rule(mode=st.sampled_from([None, None, None, 'raise', 'errimg', 'errimg-stale']))
     def failure(self, mode):
+        if self.eng is None or self.eng.fail == mode:
+            return
         self._do({'op': 'failure', 'mode': mode})
 
+    @precondition(lambda self: self.eng is not None and (
+        (self.eng.serve_rule or {}).get('kind') == 'mtime' or ((self.eng.seed_rule or {}).get('rule') or {}).get('kind') == 'mtime'))
     @rule(i=st.integers(0, 30), off=st.sampled_from(OFFSETS))
     def touch(self, i, off):
         self._do({'op': 'touch', 'value': self._anchor(i, off)})
 
-    @rule(kind=st.sampled_from(['time', 'time', 'delta', 'delta', 'delta', 'mtime', 'clear']), i=st.integers(0, 30),
+    @rule(kind=st.sampled_from(['time', 'time', 'delta', 'delta', 'delta', 'mtime', 'mtime', 'clear']), i=st.integers(0, 30),
           off=st.sampled_from(OFFSETS), style=st.sampled_from(['seconds', 'seconds', 'mixed', 'minutes', 'all']),
-          as_datetime=st.booleans(), slot=st.sampled_from(['serve', 'serve', 'serve', 'seed']))
+          as_datetime=st.booleans(), slot=st.sampled_from(['serve', 'serve', 'seed']))
     def set_rule(self, kind, i, off, style, as_datetime, slot):
         if self.eng is None or self.eng.dead:
             return
@@ -951,22 +999,50 @@ class ExpiryMachine(RuleBasedStateMachine):
             r = make_rule(kind, value, self.eng.clock.now, style, as_datetime)
         self._do({'op': slot + '_rule', 'rule': r})
 
-    @rule(mgr=st.sampled_from(['cs', 'cs', 'cm', 'cm', 'cb']), z=st.sampled_from([0, 1, 1, 2, 2, 2]), x=st.integers(0, 3),
-          y=st.integers(0, 3), w=st.sampled_from([1, 1, 1, 2, 3]), h=st.sampled_from([1, 1, 2]), meta=st.booleans(),
-          pre=st.sampled_from([None, None, None, 'is_cached', 'is_stale']))
-    def request(self, mgr, z, x, y, w, h, meta, pre):
-        if self.eng is None:
-            return
+    def _request(self, mgr, x, y, z, w, h, meta, pre):
         n = 2 ** z
         x, y = x % n, y % n
         if pre:
+            c = (x, y, z)
             if mgr != 'cs':
                 # the seed walker hands over the main tile of a meta tile
-                x, y = x - x % 2, y - y % 2
-            coords = [[x, y, z]]
+                c = self.eng.mgrs[mgr].meta_grid.meta_tile(c).main_tile_coord
+            coords = [list(c)]
         else:
             coords = [[xx, yy, z] for yy in range(y, min(n, y + h)) for xx in range(x, min(n, x + w))]
         self._do({'op': 'request', 'mgr': mgr, 'coords': coords, 'with_metadata': meta, 'precheck': pre})
+        self.last = (x, y, z, w, h)
+
+    @rule(mgr=st.sampled_from(['cs', 'cs', 'cm', 'cm', 'cb']), z=st.sampled_from([0, 1, 1, 1, 2, 2]), x=st.integers(0, 3),
+          y=st.integers(0, 3), w=st.sampled_from([1, 1, 1, 2, 3]), h=st.sampled_from([1, 1, 2]), meta=st.booleans())
+    def request_anywhere(self, mgr, z, x, y, w, h, meta):
+        if self.eng is None:
+            return
+        self._request(mgr, x, y, z, w, h, meta, None)
+
+    @precondition(lambda self: self.eng is not None and self.eng.model)
+    @rule(mgr=st.sampled_from(['cs', 'cs', 'cm', 'cm', 'cb']), i=st.integers(0, 40), w=st.sampled_from([1, 1, 1, 2, 3]),
+          h=st.sampled_from([1, 1, 2]), dx=st.sampled_from([0, 0, 1]), meta=st.booleans())
+    def request_stored(self, mgr, i, w, h, dx, meta):
+        keys = sorted(self.eng.model)
+        x, y, z = keys[i % len(keys)]
+        self._request(mgr, max(0, x - dx * (w - 1)), y, z, w, h, meta, None)
+
+    @precondition(lambda self: self.eng is not None and self.last is not None)
+    @rule(mgr=st.sampled_from(['cs', 'cs', 'cm', 'cm', 'cb']), meta=st.booleans())
+    def request_again(self, mgr, meta):
+        x, y, z, w, h = self.last
+        self._request(mgr, x, y, z, w, h, meta, None)
+
+    @rule(mgr=st.sampled_from(['cs', 'cm', 'cm', 'cb']), i=st.integers(0, 40), z=st.sampled_from([0, 1, 1, 2]), x=st.integers(0, 3),
+          y=st.integers(0, 3), stored=st.booleans(), pre=st.sampled_from(['is_cached', 'is_cached', 'is_stale']))
+    def request_like_seed(self, mgr, i, z, x, y, stored, pre):
+        if self.eng is None:
+            return
+        if stored and self.eng.model:
+            keys = sorted(self.eng.model)
+            x, y, z = keys[i % len(keys)]
+        self._request(mgr, x, y, z, 1, 1, False, pre)
 
     def teardown(self):
         eng = self.eng
@@ -1007,10 +1083,11 @@ def record(st_, eng):
 
 def machine_shard(shard, nshards, seed, tier):
     st_ = core.Stats()
-    n = (2400 if tier == 'quick' else 60000) // nshards
+    n = (4000 if tier == 'quick' else 160000) // nshards
     steps = 40 if tier == 'quick' else 60
-    ExpiryMachine._open = frozenset(core.open_signatures(PROPERTY))
-    core.run_machine(ExpiryMachine, st_, max_examples=n, seed=seed, step_count=steps)
+    # VERIF_C13_NO_EXCLUDE=1: generate the construct of the open finding too (used to validate the proposed fix)
+    ExpiryMachine._open = frozenset() if os.environ.get('VERIF_C13_NO_EXCLUDE') else frozenset(core.open_signatures(PROPERTY))
+    core.run_machine(ExpiryMachine, st_, max_examples=n, seed=seed, step_count=steps, max_signatures=2)
     return st_
 
 
